@@ -13,13 +13,13 @@ from lib import tlc
 from lib.evidence import Report
 from checks.serial_check import scenario, run_property
 
-ALL_OPS = ['copy', 'alias', 'bin', 'scale', 'aug', 'augscalar', 'ufunc', 'out', 'setall', 'setitem', 'comp', 'abs']
+ALL_OPS = ['copy', 'alias', 'bin', 'scale', 'aug', 'augscalar', 'ufunc', 'out', 'setall', 'setitem', 'comp', 'stride', 'abs']
 
 
 def vs_run(wd, maxlen, simulate=None, seed=0):
     os.makedirs(wd, exist_ok=True)
     cfg = os.path.join(wd, 'VS.cfg')
-    tlc.write_cfg(cfg, spec='Spec', constants=dict(N='2', MAXLEN=str(maxlen), OPS='{' + ','.join(f'"{o}"' for o in ALL_OPS) + '}'),
+    tlc.write_cfg(cfg, spec='Spec', constants=dict(N='4', MAXLEN=str(maxlen), OPS='{' + ','.join(f'"{o}"' for o in ALL_OPS) + '}'),
                   invariants=['TypeOK', 'ViewShares', 'Export'], properties=['NoOperandMutation', 'NoSpookyAction', 'CopyIndependent'],
                   check_deadlock=False)
     return tlc.run_tlc('ValueSemantics', cfg, workers=8, timeout=1800, heap='8g', simulate=simulate, depth=maxlen + 1 if simulate else None,
